@@ -293,6 +293,26 @@ def run(prog, rep):
             and ast.unparse(fv.right) == 'allocated'):
         rep.violation('P6', loc(free.module, fi), 'FreeCapacity.__init__', 'free is not total - allocated',
                       'FreeCapacity must compute free = total - allocated')
+    # the difference is kept as computed: nothing rewrites self.free (or its fields) afterwards
+    for n in walk_no_nested(fi):
+        tgt = None
+        if isinstance(n, (ast.Assign, ast.AugAssign)):
+            for t in (n.targets if isinstance(n, ast.Assign) else [n.target]):
+                tt = ast.unparse(t)
+                if tt.startswith('self.free.') or tt.startswith('self.free['):
+                    tgt = tt
+        if isinstance(n, ast.Call) and isinstance(n.func, ast.Attribute) and ast.unparse(n.func.value).startswith('self.free') and \
+                n.func.attr in MUTATING | {'_set_fields', 'set_fields', '__setattr__'}:
+            tgt = ast.unparse(n.func)
+        if isinstance(n, ast.Call) and isinstance(n.func, ast.Name) and n.func.id == 'setattr' and n.args and ast.unparse(n.args[0]).startswith('self.free'):
+            tgt = 'setattr(self.free, ...)'
+        if tgt:
+            rep.violation('P6', loc(free.module, n), 'FreeCapacity.__init__', f'free capacity rewritten after the subtraction: {norm(n, 70)}',
+                          'the free capacity must stay total - allocated field by field (negative where over-allocated); rewriting fields '
+                          'afterwards (e.g. clamping at zero) breaks free + allocated = total and hides over-allocation from negative_fields()')
+    nfree = [n for n in walk_no_nested(fi) if isinstance(n, ast.Assign) and any(ast.unparse(t) == 'self.free' for t in n.targets)]
+    if len(nfree) != 1:
+        rep.violation('P6', loc(free.module, fi), 'FreeCapacity.__init__', f'self.free assigned {len(nfree)} times', 'free must be computed once as total - allocated')
     if ast.unparse(assigns.get('self.total', ast.Constant(None))) != 'total':
         rep.violation('P6', loc(free.module, fi), 'FreeCapacity.__init__', 'total not kept', 'FreeCapacity must keep total')
     none_ok = any(isinstance(n, ast.If) and ast.unparse(n.test) == 'allocated is None' and
